@@ -238,6 +238,15 @@ def pick_name(rng, pool, existing, p_fresh=0.8):
 
 def maybe_id(w, rng, st):
     """library-generated (None) or caller-supplied node id"""
+    if len(getattr(w, 'sessions', {})) > 1 and rng.random() < 0.3:
+        # an id the OTHER session's model already uses (ids are unique per graph, not per store)
+        other = [c for k, c in w.sessions.items() if c is not None]
+        if other:
+            from .struct import graph_state
+            ids = sorted(set(graph_state(w.imp, other[0]['topo'].graph_model.graph_id)['nodes']) - set(st.n))
+            if ids:
+                w.stats.inc('probe.second_session.id_of_other_session_offered')
+                return rng.choice(ids)
     if w.cfg['flavour'] == 'substrate':
         return w.new_id(rng)
     if rng.random() < w.cfg['p_supplied_id']:
